@@ -12,6 +12,21 @@
 //!   tensor_chain.2pc/split_outcome           one shard applied, another shard discarded its prepared entry
 //!   tensor_chain.2pc/abort_changed_shard     an event other than an applying commit delivery changed a shard's data
 //!   tensor_chain.2pc/commit_wrong_writes     an applying commit delivery produced something else than the tx's ops
+//!   tensor_chain.distributed_tx.participant/finished_tx_prepare_takes_lock
+//!                                            a PREPARE for a tx already finished on the shard moved the lock of a key held by another tx
+//!   tensor_chain.distributed_tx.participant/prepare_takes_lock_of_other_tx   same, the preparing tx not finished there
+//!   tensor_chain.distributed_tx.participant/prepared_tx_without_its_lock     a prepared tx does not hold (tx id + handle) the lock of one of its keys
+//!   tensor_chain.distributed_tx.participant/committed_write_lost  a shard no longer holds initial data + the applied writes of commit-decided txs
+//!   tensor_chain.distributed_tx.participant/shards_split          … while another shard still shows the same tx's writes
+//! After a model-vs-implementation disagreement, and after a first monitor hit, the rest of the script
+//! still runs on the REAL objects with every monitor armed (each class is reported once per script).
+//!
+//! Late duplicates.  `directed_late()` (run first) is the history "T0 prepared on shard 0 and finished
+//! there; T1 prepares the same key; a delayed duplicate PREPARE(T0) arrives while T1 is prepared; T1
+//! commits everywhere; a re-sent ABORT(T0) / the participant's stale cleanup runs" in its variants;
+//! the stream `late-duplicates` draws random schedules over 1–2 keys in which PREPARE/COMMIT/ABORT
+//! messages of transactions already FINISHED on the addressed shard are re-delivered late, between
+//! the steps of later transactions on the same keys and after their commits.
 //!
 //! Time.  The code reads the wall clock.  Coordinator timeouts are driven on a virtual clock
 //! (1 unit = 1 h): before every sweep the coordinator is round-tripped through its public
@@ -172,6 +187,10 @@ struct Real {
     votes_cast: HashMap<(usize, usize), Vec<bool>>,
     viol: Vec<Violation>,
     hits: Vec<String>,
+    /// what each shard must hold: preloaded data + the applied writes of commit-decided txs, in application order
+    expect: Vec<BTreeMap<u64, u64>>,
+    /// per shard and key: the commit-decided tx whose applied operation produced `expect`'s entry (or absence)
+    writer: Vec<BTreeMap<u64, usize>>,
 }
 
 fn mk_coord(cfg: &DistributedTxConfig) -> DistributedTxCoordinator {
@@ -208,7 +227,28 @@ impl Real {
             votes_cast: HashMap::new(),
             viol: vec![],
             hits: vec![],
+            expect: vec![BTreeMap::new(); n],
+            writer: vec![BTreeMap::new(); n],
         }
+    }
+    /// key -> (dense tx, real handle) of the shard's lock table
+    fn holders(&self, sh: usize) -> BTreeMap<u64, (u64, u64)> {
+        let st = self.parts[sh].to_state();
+        st.lock_state.locks().iter().map(|(k, l)| (kid(k), (self.dense(l.tx_id), l.lock_handle))).collect()
+    }
+    /// the participant applied or discarded `tx` earlier and keeps no prepared record of it
+    fn finished_on(&self, sh: usize, tx: usize) -> bool {
+        sh < self.parts.len()
+            && (self.applied.contains(&(sh, tx)) || self.discarded.contains(&(sh, tx)))
+            && !self.parts[sh].get_awaiting_decision().contains(&self.txs[tx].real)
+    }
+    fn keys_of(&self, tx: usize, sh: usize) -> Vec<u64> {
+        self.txs[tx].pos(sh).map_or(vec![], |p| self.txs[tx].ops[p].iter().map(Op::key).collect())
+    }
+    /// some OTHER tx applied an operation on one of `tx`'s keys on this shard
+    fn overlapping_commit_applied(&self, sh: usize, tx: usize) -> bool {
+        let ks = self.keys_of(tx, sh);
+        self.applied.iter().any(|&(s2, t2)| s2 == sh && t2 != tx && self.keys_of(t2, sh).iter().any(|k| ks.contains(k)))
     }
     fn dense(&self, real: u64) -> u64 {
         if (0xDEAD_0000_0000..0xDEAD_0000_0000 + 1_000_000).contains(&real) {
@@ -464,6 +504,7 @@ impl Real {
             ["preload", sh, k, v] => {
                 let (sh, k, v): (usize, u64, u64) = (sh.parse().unwrap(), k.parse().unwrap(), v.parse().unwrap());
                 self.stores[sh].put(kname(k), tensor_of(v)).unwrap();
+                self.expect[sh].insert(k, v);
                 return "ok".into();
             },
             ["begin", shs, ops, _sim, emb] => {
@@ -502,9 +543,45 @@ impl Real {
                                 delta_embedding: emb_vec(emb),
                                 timeout_ms: 5000,
                             };
+                            let finished = self.finished_on(sh, tx);
+                            let held_before = self.holders(sh);
                             let vote = self.parts[sh].prepare(req);
                             if let PrepareVote::Yes { lock_handle, .. } = &vote {
                                 self.hdense(*lock_handle);
+                            }
+                            // a PREPARE never changes the lock (holder, handle) of a key held by another tx
+                            let held_after = self.holders(sh);
+                            let my_keys = self.keys_of(tx, sh);
+                            let other_holds = my_keys.iter().any(|k| held_before.get(k).is_some_and(|h| h.0 != tx as u64));
+                            if finished {
+                                self.hits.push(format!(
+                                    "late.prepare_finished.{}",
+                                    match (&vote, other_holds) {
+                                        (PrepareVote::Yes { .. }, false) => "reprepared",
+                                        (PrepareVote::Yes { .. }, true) => "yes_key_held",
+                                        (_, true) => "refused_key_held",
+                                        (_, false) => "refused",
+                                    }
+                                ));
+                            }
+                            for (k, h) in &held_before {
+                                if h.0 != tx as u64 && held_after.get(k) != Some(h) {
+                                    let now = held_after.get(k).map_or("nobody".to_string(), |x| format!("tx {}", x.0));
+                                    self.viol.push(Violation {
+                                        class: if finished {
+                                            "tensor_chain.distributed_tx.participant/finished_tx_prepare_takes_lock"
+                                        } else {
+                                            "tensor_chain.distributed_tx.participant/prepare_takes_lock_of_other_tx"
+                                        },
+                                        what: format!(
+                                            "PREPARE(tx {tx}) delivered to shard {sh}{} was answered {}: the lock on k{k} moved from tx {} to {now}",
+                                            if finished { format!(" where tx {tx} is already finished (applied {:?}, discarded {:?})", self.applied, self.discarded) } else { String::new() },
+                                            self.show_vote(&vote),
+                                            h.0
+                                        ),
+                                    });
+                                    break;
+                                }
                             }
                             self.votes_cast.entry((tx, sh)).or_default().push(matches!(vote, PrepareVote::Yes { .. }));
                             let s = format!("vote {}", self.show_vote(&vote));
@@ -521,10 +598,27 @@ impl Real {
                         if sh >= self.parts.len() {
                             "noshard".into()
                         } else {
+                            let finished = self.applied.contains(&(sh, tx)) || self.discarded.contains(&(sh, tx));
                             let r = self.parts[sh].commit(self.txs[tx].real);
+                            if finished {
+                                self.hits.push(format!("late.commit_finished.{}", if r.success { "reapplied" } else { "absent" }));
+                            }
                             if r.success {
                                 applying = Some((sh, tx));
                                 self.applied.push((sh, tx));
+                                if self.decided.contains(&(tx, true)) {
+                                    for op in self.txs[tx].pos(sh).map_or(vec![], |p| self.txs[tx].ops[p].clone()) {
+                                        match op {
+                                            Op::Put(k, v) => {
+                                                self.expect[sh].insert(k, v);
+                                            },
+                                            Op::Del(k) => {
+                                                self.expect[sh].remove(&k);
+                                            },
+                                        }
+                                        self.writer[sh].insert(op.key(), tx);
+                                    }
+                                }
                                 if !self.decided.contains(&(tx, true)) {
                                     self.viol.push(Violation {
                                         class: "tensor_chain.2pc/applied_without_commit",
@@ -542,9 +636,16 @@ impl Real {
                             "noshard".into()
                         } else {
                             let real = self.txs[tx].real;
+                            let finished = self.finished_on(sh, tx);
                             let was = self.parts[sh].get_awaiting_decision().contains(&real);
                             let _ = self.parts[sh].abort(real);
                             let still = self.parts[sh].get_awaiting_decision().contains(&real);
+                            if finished || (was && self.discarded.contains(&(sh, tx))) {
+                                self.hits.push(format!("late.abort_finished.{}", if was { "discarded_again" } else { "absent" }));
+                                if self.overlapping_commit_applied(sh, tx) {
+                                    self.hits.push("late.abort_finished.after_overlapping_commit".into());
+                                }
+                            }
                             if was && !still {
                                 self.discarded.push((sh, tx));
                                 "done".into()
@@ -722,6 +823,71 @@ impl Real {
                 }
             },
         }
+        // ---- locks: every prepared tx holds, under its own handle, the lock of each of its keys
+        'locks: for sh in 0..self.parts.len() {
+            let st = self.parts[sh].to_state();
+            for pt in st.prepared.values() {
+                for op in &pt.operations {
+                    let key = match op {
+                        Transaction::Put { key, .. } | Transaction::Delete { key } => key,
+                        _ => continue,
+                    };
+                    let ok = st.lock_state.locks().get(key).is_some_and(|l| l.tx_id == pt.tx_id && l.lock_handle == pt.lock_handle);
+                    if !ok {
+                        let holder = st.lock_state.locks().get(key).map_or("nobody".to_string(), |l| format!("tx {}", self.dense(l.tx_id)));
+                        self.viol.push(Violation {
+                            class: "tensor_chain.distributed_tx.participant/prepared_tx_without_its_lock",
+                            what: format!(
+                                "after `{line}`: tx {} is prepared on shard {sh} but the lock on k{} is held by {holder}",
+                                self.dense(pt.tx_id),
+                                kid(key)
+                            ),
+                        });
+                        break 'locks;
+                    }
+                }
+            }
+        }
+        // ---- atomic across shards: every shard holds exactly its initial data + the applied writes of
+        //      commit-decided txs (application order); a deviation on a key last written by a committed tx
+        //      is a lost committed write, and a split if another shard still shows that tx's writes
+        'data: for sh in 0..after.len() {
+            let keys: Vec<u64> = self.expect[sh].keys().chain(after[sh].keys()).copied().collect();
+            for k in keys {
+                if self.expect[sh].get(&k) == after[sh].get(&k) {
+                    continue;
+                }
+                let Some(&t) = self.writer[sh].get(&k) else { continue };
+                let show = |v: Option<&u64>| v.map_or("absent".to_string(), |x| x.to_string());
+                self.viol.push(Violation {
+                    class: "tensor_chain.distributed_tx.participant/committed_write_lost",
+                    what: format!(
+                        "after `{line}`: tx {t} was decided commit and applied on shard {sh}, which must hold k{k} = {} but holds {} (decisions {:?})",
+                        show(self.expect[sh].get(&k)),
+                        show(after[sh].get(&k)),
+                        self.decided
+                    ),
+                });
+                let intact = (0..after.len()).find(|&s2| {
+                    s2 != sh && {
+                        let ks: Vec<u64> = self.keys_of(t, s2).into_iter().filter(|k2| self.writer[s2].get(k2) == Some(&t)).collect();
+                        !ks.is_empty() && ks.iter().all(|k2| self.expect[s2].get(k2) == after[s2].get(k2))
+                    }
+                });
+                if let Some(s2) = intact {
+                    self.viol.push(Violation {
+                        class: "tensor_chain.distributed_tx.participant/shards_split",
+                        what: format!(
+                            "after `{line}`: committed tx {t}: shard {s2} holds its writes ({:?}), shard {sh} lost k{k} (holds {}, must hold {})",
+                            after[s2],
+                            show(after[sh].get(&k)),
+                            show(self.expect[sh].get(&k))
+                        ),
+                    });
+                }
+                break 'data;
+            }
+        }
         for &(s1, t1) in &self.applied {
             if let Some(&(s2, _)) = self.discarded.iter().find(|&&(_, t2)| t2 == t1) {
                 if !self.viol.iter().any(|v| v.class == "tensor_chain.2pc/split_outcome") {
@@ -807,19 +973,33 @@ fn run_script(m: &mut Model, rep: &mut Report, stream: &str, setup: &Setup, line
     // After a model-vs-implementation disagreement the rest of the script still runs on the REAL
     // objects alone, so that the property monitors can turn the divergence into a failing input.
     let mut model_ok = true;
+    // once true, monitor hits are observations (the script left the property's alphabet)
+    let mut outside = !in_quantifier;
     for (n, line) in lines.iter().enumerate() {
         let ia = real.exec(line);
+        // the model follows the whole script — after a disagreement only to classify cleanup events
+        let ma = m.ask(line);
+        // A participant-side cleanup (`stale` / `recover`) written into an in-quantifier script (directed
+        // late-duplicate templates, replays, shrink candidates) is inside the quantifier exactly when
+        // it is a no-op on the code as it is, i.e. the MODEL has no prepared record to discard at that
+        // point of the same script; otherwise the rest of the script is outside (observations only).
+        let cleanup_noop = is_cleanup(line) && ma.starts_with("ids - ");
+        if is_cleanup(line) && !cleanup_noop {
+            outside = true;
+        }
         for v in real.viol.drain(..) {
-            if in_quantifier {
-                out.violations.push((v.class.to_string(), v.what));
+            if !outside {
+                // each class once per script; the run goes on with every monitor armed
+                if !out.violations.iter().any(|(c, _)| c == v.class) {
+                    out.violations.push((v.class.to_string(), v.what));
+                }
             } else {
                 out.observations.push(format!("{}: {}", v.class, v.what));
             }
         }
         if model_ok {
-            let ma = m.ask(line);
             let mut ma_cmp = ma.clone();
-            if !in_quantifier {
+            if outside || cleanup_noop {
                 ma_cmp = ma_cmp.replace(" !outside", "");
             }
             if ia != ma_cmp {
@@ -827,7 +1007,7 @@ fn run_script(m: &mut Model, rep: &mut Report, stream: &str, setup: &Setup, line
                 out.disagreed = true;
                 model_ok = false;
             } else {
-                if ma.contains("!outside") {
+                if ma.contains("!outside") && !cleanup_noop {
                     out.tags.push("outside_alphabet_event".into());
                 }
                 let id = real.dump();
@@ -851,9 +1031,6 @@ fn run_script(m: &mut Model, rep: &mut Report, stream: &str, setup: &Setup, line
             out.disagreed = true;
             model_ok = false;
         }
-        if !out.violations.is_empty() {
-            break;
-        }
     }
     out.tags.append(&mut real.hits);
     for (_, r) in &real.reasons {
@@ -861,6 +1038,24 @@ fn run_script(m: &mut Model, rep: &mut Report, stream: &str, setup: &Setup, line
     }
     out.nontrivial = state_changes >= 2 && !real.decided.is_empty();
     out
+}
+
+fn is_cleanup(line: &str) -> bool {
+    line.starts_with("stale ") || line.starts_with("recover ")
+}
+
+/// Every participant-side cleanup in `lines` is a no-op on the code as it is (asked of the model).
+fn cleanups_are_noops(m: &mut Model, setup: &Setup, lines: &[String]) -> bool {
+    if !lines.iter().any(|l| is_cleanup(l)) {
+        return true;
+    }
+    if m.ask(&setup.init_line()) != "ok" {
+        return false;
+    }
+    lines.iter().all(|l| {
+        let a = m.ask(l);
+        !is_cleanup(l) || a.starts_with("ids - ")
+    })
 }
 
 // ------------------------------------------------------------------ generators
@@ -911,10 +1106,20 @@ fn begin_line(shards: &[usize], ops: &[Vec<Op>], embs: &[u64]) -> String {
 /// a scratch real system, so that it can aim at fresh / delivered / dropped messages and at txs in a
 /// given phase.  Everything it learns that way is re-derived by `run_script` from the lines alone.
 fn gen_schedule(r: &mut Rng, setup: &Setup, max_events: usize, rep: &mut Report) -> Vec<String> {
+    gen_schedule_mode(r, setup, max_events, rep, false)
+}
+
+/// `late = true`: 1–2 keys per shard (so that transactions overlap), transactions mostly over all
+/// shards and begun one after the other, and PREPARE / COMMIT / ABORT messages of transactions that
+/// are already decided — preferably finished on the addressed shard — re-delivered late: while a
+/// later transaction is prepared on the same shard, after its commit, and in an epilogue after the
+/// last transaction finished.
+fn gen_schedule_mode(r: &mut Rng, setup: &Setup, max_events: usize, rep: &mut Report, late: bool) -> Vec<String> {
     let mut real = Real::new(setup.n, setup.t_units, setup.maxc, false, setup.age_parts);
     let extended = setup.age_parts;
     let mut lines: Vec<String> = vec![];
-    let nkeys = 2 + r.below(3);
+    let nkeys = if late { 1 + r.below(2) } else { 2 + r.below(3) };
+    let mut epilogue: Option<u64> = None;
     for sh in 0..setup.n {
         for k in 0..nkeys {
             if r.chance(1, 2) {
@@ -925,8 +1130,8 @@ fn gen_schedule(r: &mut Rng, setup: &Setup, max_events: usize, rep: &mut Report)
     for l in &lines {
         real.exec(l);
     }
-    let ntx = 1 + r.below(3) as usize;
-    let disjoint = r.chance(1, 4);
+    let ntx = if late { 2 + r.below(2) as usize } else { 1 + r.below(3) as usize };
+    let disjoint = !late && r.chance(1, 4);
     let mut delivered: Vec<u32> = vec![];
     let mut dropped: Vec<bool> = vec![];
     let mut events = 0;
@@ -938,12 +1143,55 @@ fn gen_schedule(r: &mut Rng, setup: &Setup, max_events: usize, rep: &mut Report)
         let seen: Vec<usize> = (0..real.pool.len()).filter(|&i| delivered[i] > 0).collect();
         let pending = real.coord.to_state().pending;
         let prepared_tx: Vec<usize> = pending.values().filter(|t| t.phase == TxPhase::Prepared).map(|t| real.dense(t.tx_id) as usize).collect();
+        // late mode: pool messages (PREPARE / COMMIT / ABORT) of decided transactions that were delivered before
+        let (mut late_hot, mut late_fin, mut late_any): (Vec<usize>, Vec<usize>, Vec<usize>) = (vec![], vec![], vec![]);
+        if late {
+            for &i in &seen {
+                let (tx, sh, is_prepare) = match &real.pool[i] {
+                    RMsg::Prepare { tx, sh } => (*tx, *sh, true),
+                    RMsg::Commit { tx, sh } | RMsg::Abort { tx, sh } => (*tx, *sh, false),
+                    RMsg::Vote { .. } => continue,
+                };
+                if !real.decided.iter().any(|d| d.0 == tx) || sh >= real.parts.len() {
+                    continue;
+                }
+                late_any.push(i);
+                let zombie = real.parts[sh].get_awaiting_decision().contains(&real.txs[tx].real);
+                if real.finished_on(sh, tx) || zombie {
+                    late_fin.push(i);
+                    // a PREPARE while another tx is prepared on the shard; a decision message after another tx applied there
+                    let other_prepared = real.parts[sh].get_awaiting_decision().iter().any(|t| *t != real.txs[tx].real);
+                    if (is_prepare && other_prepared) || (!is_prepare && real.overlapping_commit_applied(sh, tx)) {
+                        late_hot.push(i);
+                    }
+                }
+            }
+        }
         if fresh.is_empty() && real.txs.len() >= ntx && prepared_tx.is_empty() && (pending.is_empty() || events > max_events / 2) {
-            break;
+            if !late || late_any.is_empty() {
+                break;
+            }
+            // epilogue: a few more late duplicates after everything has finished
+            let left = *epilogue.get_or_insert(2 + r.below(5));
+            if left == 0 {
+                break;
+            }
+            epilogue = Some(left - 1);
+            let from = if !late_hot.is_empty() && r.chance(1, 2) { &late_hot } else if !late_fin.is_empty() && r.chance(2, 3) { &late_fin } else { &late_any };
+            let i = *r.pick(from);
+            rep.hit("net.late_duplicate");
+            let line = format!("deliver {i}");
+            real.exec(&line);
+            lines.push(line);
+            continue;
         }
         let mut choices: Vec<(&str, u64)> = vec![];
         if real.txs.len() < ntx + usize::from(setup.maxc <= 2) {
-            choices.push(("begin", if real.txs.is_empty() { 40 } else { 6 }));
+            let all_decided = (0..real.txs.len()).all(|t| real.decided.iter().any(|d| d.0 == t));
+            choices.push(("begin", if real.txs.is_empty() { 40 } else if late { if all_decided { 30 } else { 2 } } else { 6 }));
+        }
+        if !late_any.is_empty() {
+            choices.push(("late", if late_hot.is_empty() { 6 } else { 16 }));
         }
         if !fresh.is_empty() {
             choices.push(("fresh", 30));
@@ -976,7 +1224,14 @@ fn gen_schedule(r: &mut Rng, setup: &Setup, max_events: usize, rep: &mut Report)
             "begin" => {
                 let mut all: Vec<usize> = (0..setup.n).collect();
                 r.shuffle(&mut all);
-                let cnt = if r.chance(1, 6) { 1 } else { 2 + r.below(setup.n as u64 - 1) as usize }.min(setup.n);
+                let cnt = if late && r.chance(3, 4) {
+                    setup.n
+                } else if r.chance(1, 6) {
+                    1
+                } else {
+                    2 + r.below(setup.n as u64 - 1) as usize
+                }
+                .min(setup.n);
                 let mut shards: Vec<usize> = all[..cnt].to_vec();
                 if r.chance(2, 3) {
                     shards.sort_unstable();
@@ -1007,6 +1262,13 @@ fn gen_schedule(r: &mut Rng, setup: &Setup, max_events: usize, rep: &mut Report)
                 }
                 delivered[fresh[j]] += 1;
                 format!("deliver {}", fresh[j])
+            },
+            "late" => {
+                let from = if !late_hot.is_empty() && r.chance(2, 3) { &late_hot } else if !late_fin.is_empty() && r.chance(2, 3) { &late_fin } else { &late_any };
+                let i = *r.pick(from);
+                delivered[i] += 1;
+                rep.hit("net.late_duplicate");
+                format!("deliver {i}")
             },
             "dup" => {
                 let i = *r.pick(&seen);
@@ -1117,6 +1379,71 @@ fn directed() -> Vec<(&'static str, Setup, Vec<String>)> {
     ]
 }
 
+/// The late-duplicate history (module doc), run before everything else.  T0 = tx 0 and T1 = tx 1 write
+/// k1 on shard 0 (and k2.. on the other shards).  Variants: 2 / 3 shards; T0 finished on shard 0 by a
+/// coordinator timeout (its PREPARE to the other shards is lost), by a NO vote from shard 1, or by its
+/// own commit; the end: the re-sent ABORT(T0) (first ACK lost) or the participant's `cleanup_stale`.
+/// On the code as it is the late PREPARE(T0) is answered CONFLICT(T1) and nothing else happens.
+fn directed_late() -> Vec<(String, Setup, Vec<String>)> {
+    let b = |sh: &[usize], ops: &[String], embs: &[u64]| begin_line(sh, &ops.iter().map(|o| parse_ops(o)).collect::<Vec<_>>(), embs);
+    let mut out = vec![];
+    for n in [2usize, 3] {
+        for cause in ["timeout", "no-vote"] {
+            for end in ["resent-abort", "cleanup-stale"] {
+                let setup = Setup { n, t_units: 2, maxc: 100, lock_to: 1000, wallclock: false, age_parts: false };
+                let shards: Vec<usize> = (0..n).collect();
+                let embs: Vec<u64> = (0..n as u64).map(|i| 1 + i % 3).collect();
+                let mut v: Vec<String> = (0..n).map(|sh| format!("preload {sh} {} {}", sh + 1, 5 + sh)).collect();
+                let ops = |base: usize| (0..n).map(|sh| format!("p{}={}", sh + 1, base + sh)).collect::<Vec<String>>();
+                v.push(b(&shards, &ops(7), &embs)); //            pool 0..n-1      = PREPARE(T0) per shard
+                v.push("deliver 0".into()); //                     pool n           = shard 0's YES
+                v.push(format!("deliver {n}"));
+                if cause == "timeout" {
+                    v.push("tick 3".into());
+                    v.push("sweep".into()); //                     pool n+1..2n     = ABORT(T0) per shard
+                } else {
+                    for sh in 1..n {
+                        v.push(format!("cvote 0 {sh} n -")); //     NO votes from the other shards -> same abort broadcast
+                    }
+                }
+                for sh in 0..n {
+                    v.push(format!("deliver {}", n + 1 + sh)); //  T0 discarded on shard 0, absent elsewhere
+                }
+                v.push(b(&shards, &ops(20), &embs)); //           pool 2n+1..3n    = PREPARE(T1) per shard
+                v.push(format!("deliver {}", 2 * n + 1)); //       pool 3n+1        = shard 0's YES for T1 (holds k1)
+                v.push("deliver 0".into()); //                     pool 3n+2        = answer to the late PREPARE(T0)
+                v.push(format!("deliver {}", 3 * n + 2)); //       the late vote reaches a coordinator that is done with T0
+                v.push(format!("deliver {}", 3 * n + 1));
+                for sh in 1..n {
+                    v.push(format!("deliver {}", 2 * n + 1 + sh)); // pool 3n+2+sh = shard sh's YES for T1
+                    v.push(format!("deliver {}", 3 * n + 2 + sh));
+                }
+                v.push("ccommit 1".into()); //                     pool 4n+2..5n+1  = COMMIT(T1) per shard
+                for sh in 0..n {
+                    v.push(format!("deliver {}", 4 * n + 2 + sh));
+                }
+                v.push(if end == "resent-abort" { format!("deliver {}", n + 1) } else { "stale 0 0".to_string() });
+                out.push((format!("late-prepare/{n}-shards/{cause}/{end}"), setup, v));
+            }
+        }
+    }
+    // T0 finished by its own COMMIT; the zombie's undo image is then T0's committed value
+    {
+        let setup = Setup { n: 2, t_units: 2, maxc: 100, lock_to: 1000, wallclock: false, age_parts: false };
+        let mut v: Vec<String> = vec!["preload 0 1 5".into(), "preload 1 2 6".into()];
+        v.push(b(&[0, 1], &["p1=7".to_string(), "p2=8".to_string()], &[1, 2])); // 0,1 = PREPARE(T0)
+        for l in ["deliver 0", "deliver 1", "deliver 2", "deliver 3", "ccommit 0", "deliver 4", "deliver 5"] {
+            v.push(l.into()); //                                   2,3 = votes; 4,5 = COMMIT(T0)
+        }
+        v.push(b(&[0, 1], &["p1=20".to_string(), "p2=21".to_string()], &[1, 2])); // 6,7 = PREPARE(T1)
+        for l in ["deliver 6", "deliver 0", "deliver 9", "deliver 8", "deliver 7", "deliver 10", "ccommit 1", "deliver 11", "deliver 12", "stale 0 0"] {
+            v.push(l.into()); //                                   8 = T1's YES on shard 0; 9 = late answer; 10 = shard 1's YES; 11,12 = COMMIT(T1)
+        }
+        out.push(("late-prepare/2-shards/committed/cleanup-stale".to_string(), setup, v));
+    }
+    out
+}
+
 /// The two counter-traces over the EXTENDED alphabet (Lean: `…_outside_quantifier_witness`).
 fn witnesses() -> Vec<(&'static str, Setup, Vec<String>)> {
     let l = |v: &[&str]| v.iter().map(|x| x.to_string()).collect::<Vec<String>>();
@@ -1152,7 +1479,10 @@ const EXPECTED: &[&str] = &[
     "abort.absent", "sweep.some", "sweep.none", "ccommit.ok", "ccommit.not_found", "ccommit.wrong_phase", "cabort.ok",
     "cabort.not_found", "reason.conflict", "reason.cross_shard", "reason.timeout", "reason.voted_no", "cvote.none",
     "cvote.prepared", "cvote.aborting", "cvote.err.not_found", "cvote.err.duplicate", "cvote.err.wrong_phase",
-    "net.duplicate", "net.drop", "net.reorder",
+    "net.duplicate", "net.drop", "net.reorder", "net.late_duplicate",
+    "late.prepare_finished.refused_key_held", "late.prepare_finished.reprepared", "late.commit_finished.absent",
+    "late.commit_finished.reapplied", "late.abort_finished.absent", "late.abort_finished.discarded_again",
+    "late.abort_finished.after_overlapping_commit",
 ];
 
 /// Does the script, run on fresh REAL objects only, trip the monitor `class`?
@@ -1173,7 +1503,7 @@ fn real_violates(setup: &Setup, lines: &[String], class: &str) -> bool {
     real_violation(setup, lines, class).is_some()
 }
 
-fn record(rep: &mut Report, stream: &str, setup: &Setup, lines: &[String], o: &Outcome) {
+fn record(rep: &mut Report, m: &mut Model, stream: &str, setup: &Setup, lines: &[String], o: &Outcome) {
     let key = lines.join(";");
     rep.case(stream, if o.nontrivial { Some(&key) } else { None });
     for t in &o.tags {
@@ -1182,13 +1512,19 @@ fn record(rep: &mut Report, stream: &str, setup: &Setup, lines: &[String], o: &O
     rep.hit_n("events", lines.len() as u64);
     for (class, what) in &o.violations {
         // shrink the event sequence (ddmin on the real objects alone) once per class
-        let already = rep.violations.iter().any(|v| v["class"] == class.as_str());
+        // the report keeps 50 violations: at most 3 scripts per class, so that a class first seen late is not crowded out
+        let n_class = rep.violations.iter().filter(|v| v["class"] == class.as_str()).count();
+        if n_class >= 3 {
+            rep.hit(&format!("violation.more.{class}"));
+            continue;
+        }
+        let already = n_class > 0;
         let script: Vec<String> = if already || setup.wallclock {
             lines.to_vec()
         } else {
             let prev = std::panic::take_hook();
             std::panic::set_hook(Box::new(|_| {}));
-            let v = shrink_list(lines, &mut |cand: &[String]| real_violates(setup, cand, class));
+            let v = shrink_list(lines, &mut |cand: &[String]| real_violates(setup, cand, class) && cleanups_are_noops(m, setup, cand));
             std::panic::set_hook(prev);
             v
         };
@@ -1217,18 +1553,33 @@ fn main() {
                         let setup = Setup { n: w[0] as usize, t_units: w[1], maxc: w[2] as usize, lock_to: w[3], wallclock: false, age_parts: false };
                         let lines: Vec<String> = script.iter().filter_map(|x| x.as_str().map(String::from)).collect();
                         let o = run_script(&mut m, &mut rep, "replay", &setup, &lines, true);
-                        record(&mut rep, "replay", &setup, &lines, &o);
+                        record(&mut rep, &mut m, "replay", &setup, &lines, &o);
                     }
                 }
             }
         }
     }
 
+    // ---- the late-duplicate history in its variants, first
+    // (`--skip-directed-late`: mutation-testing aid, to see what the random streams find on their own)
+    let skip_late = args.extra.iter().any(|a| a == "--skip-directed-late");
+    for (name, setup, lines) in directed_late().into_iter().filter(|_| !skip_late) {
+        let o = run_script(&mut m, &mut rep, "directed-late", &setup, &lines, true);
+        // on the code as it is: the late PREPARE is refused because T1 holds the key, and nothing is left to clean up
+        if o.violations.is_empty() && !o.disagreed && !o.tags.iter().any(|t| t == "late.prepare_finished.refused_key_held") {
+            rep.note(&format!("directed-late template {name} did not reach the late PREPARE of a finished tx on a held key"));
+        }
+        record(&mut rep, &mut m, "directed-late", &setup, &lines, &o);
+        if rep.samples.is_empty() {
+            rep.sample(json!({"stream": "directed-late", "name": name, "setup": setup.init_line(), "script": lines}));
+        }
+    }
+
     // ---- directed templates
     for (name, setup, lines) in directed() {
         let o = run_script(&mut m, &mut rep, "directed", &setup, &lines, true);
-        record(&mut rep, "directed", &setup, &lines, &o);
-        if rep.samples.len() < 3 {
+        record(&mut rep, &mut m, "directed", &setup, &lines, &o);
+        if rep.samples.len() < 4 {
             rep.sample(json!({"stream": "directed", "name": name, "setup": setup.init_line(), "script": lines}));
         }
     }
@@ -1236,6 +1587,7 @@ fn main() {
     // ---- random schedules
     let n_sched = if args.thorough { 6000 } else { 500 };
     let mut r = root.fork("schedules");
+    let mut violating = 0;
     for i in 0..n_sched {
         let setup = Setup {
             n: 2 + r.below(2) as usize,
@@ -1248,11 +1600,30 @@ fn main() {
         let max_events = 20 + r.below(41) as usize;
         let lines = gen_schedule(&mut r, &setup, max_events, &mut rep);
         let o = run_script(&mut m, &mut rep, "schedules", &setup, &lines, true);
-        record(&mut rep, "schedules", &setup, &lines, &o);
+        record(&mut rep, &mut m, "schedules", &setup, &lines, &o);
         if i < 4 {
             rep.sample(json!({"stream": "schedules", "setup": setup.init_line(), "script": lines}));
         }
-        if !o.violations.is_empty() && rep.violations.len() >= 5 {
+        violating += usize::from(!o.violations.is_empty());
+        if violating >= 6 {
+            break;
+        }
+    }
+
+    // ---- random schedules with late duplicates of finished transactions' messages on overlapping keys
+    let mut r = root.fork("late-duplicates");
+    let mut violating = 0;
+    for i in 0..if args.thorough { 3000 } else { 250 } {
+        let setup = Setup { n: 2 + r.below(2) as usize, t_units: 2, maxc: 100, lock_to: 1000, wallclock: false, age_parts: false };
+        let max_events = 25 + r.below(36) as usize;
+        let lines = gen_schedule_mode(&mut r, &setup, max_events, &mut rep, true);
+        let o = run_script(&mut m, &mut rep, "late-duplicates", &setup, &lines, true);
+        record(&mut rep, &mut m, "late-duplicates", &setup, &lines, &o);
+        if i < 2 {
+            rep.sample(json!({"stream": "late-duplicates", "setup": setup.init_line(), "script": lines}));
+        }
+        violating += usize::from(!o.violations.is_empty());
+        if violating >= 12 && !skip_late {
             break;
         }
     }
@@ -1301,7 +1672,7 @@ fn main() {
             }
         }
         let o = run_script(&mut m, &mut rep, "coord-unit", &setup, &lines, true);
-        record(&mut rep, "coord-unit", &setup, &lines, &o);
+        record(&mut rep, &mut m, "coord-unit", &setup, &lines, &o);
     }
 
     // ---- untouched wall clock: 1 ms timeout, every tick sleeps 3 ms, sweeps follow ticks
@@ -1323,7 +1694,7 @@ fn main() {
             lines.push(format!("deliver {i}"));
         }
         let o = run_script(&mut m, &mut rep, "wallclock", &setup, &lines, true);
-        record(&mut rep, "wallclock", &setup, &lines, &o);
+        record(&mut rep, &mut m, "wallclock", &setup, &lines, &o);
     }
 
     // ---- reasons distribution
@@ -1379,7 +1750,7 @@ fn main() {
         }
         let end = real.snapshot(0);
         let o = run_script(&mut m, &mut rep, "observations", &setup, &lines, true);
-        record(&mut rep, "observations", &setup, &lines, &o);
+        record(&mut rep, &mut m, "observations", &setup, &lines, &o);
         rep.observe(json!({
             "observation": "duplicate_prepare_then_duplicate_commit_reapplies_committed_writes",
             "script": lines, "final_shard0": format!("{end:?}"),
